@@ -20,6 +20,22 @@ CLAIMED = {
    technique="stateless deviation-bounded exploration (D=1 over the complete attacker menu at every exchange, D=2 over all ordered pairs on small shapes) of the real NfcSession/SecureMessaging against an independent chip-side SM",
    text="For each of 4 algorithms x 3 initial counters (incl. wrap) x 3-exchange histories over 8 command and 12 response shapes, the attacker's complete menu (every bit flip, truncation, byte deletion, DO deletion/duplication/permutation, outer SW replacement, replay of earlier genuine responses, parallel-session response, unprotected responses) is enumerated as one deviation at every position, and all ordered pairs of deviations at exchanges 0 and 1; executions run to completion on the real code. Oracle: error, or exactly what the chip protected for that exchange; outer/protected status mismatch must be an error.",
    note="MAC forgery is not searched; key/counter values from small alphabets (zero, mid, about to wrap); re-ordered or duplicated data objects that still deliver the identical authenticated content are tolerated (the statement's core is 'never different plaintext or status')"),
+ "C10": dict(level="model_checking", ref="§4 C10",
+   technique="exhaustive product over the command alphabet plus explicit-state exploration of all exchange histories to depth 3/4 on the real SM code against an independent strict chip-side parser; invariant: counters equal in every state",
+   text="Full product of CLA x INS parity x 18 data lengths x 7 Le values x 4 algorithms x 3 initial counters through the real NfcSession.DoAPDU; every wire command must be authenticated and decrypted to the intended command by the independent strict chip-side SM. Then every sequence of length <=3 (thorough 4) over 6 command shapes x 5 chip answer kinds incl. protected error statuses, from counters incl. one that wraps inside the history; invariant terminal SSC == chip SSC and next exchange authenticates on both sides.",
+   note="keys from a KDF of a label; histories bounded at depth 3/4 (the behaviour depends on the counter only through MAC/IV inputs, which are shift-equivariant except at the wrap, and the wrap is covered)"),
+ "C13": dict(level="model_checking", ref="§4 C13",
+   technique="stateless exploration of chip answers (all compositions for tiny files; deviation-bounded D<=2 over {all,1,req-1,half,reject}); exhaustive sweep of every maxLe 1..65536 on the real ReadFile against the independent chip",
+   text="Real NfcSession.ReadFile against the independent chip with a second file reachable by SFI: every chunking of every file of total size 2..10, every maxLe 1..65536 for a size set at all boundaries (plain and under SM), Le caps around the fallback ladder, D<=2 chip-answer deviations, EF padding 0/1/2/300. Oracle: exactly the stored top-level object or an error; not-found only on 6A82/6283; bounded READ BINARY count.",
+   note="chip READ BINARY semantics per ISO 7816-4 (P1.b8 = SFI addressing, SFI 0 = current EF); for plain reads with Le>256 the chip tolerates gmrtd's 6-byte case-2E form (known finding C17) so that the read logic behind it is still explored; strict parsing is explored on a boundary set"),
+ "C18": dict(level="exploration", ref="§4 C18",
+   technique="bounded-exhaustive enumeration: ~1000 generated valid MRZs x every single-character substitution (36 symbols), adjacent transposition, deletion, insertion, plus repaired-check-digit variants, against an independent ICAO 9303 check-digit/layout reference",
+   text="For every generated valid zone of the three layouts (all field-length shapes incl. extended document numbers) the library must accept and decode every field as the reference slices it; for every single-character mutant an accepted zone must have all non-empty checked fields and the composite consistent under the reference; key-seed strings from the full MRZ, from the three fields and from decode/re-encode must coincide.",
+   note="reference refmrz anchored to the ICAO 9303 specimen zones; lenient where ICAO leaves room (empty fields not judged, both spellings of an empty TD3 optional check digit)"),
+ "C19": dict(level="exploration", ref="§4 C19",
+   technique="bounded-exhaustive generation of LDS files from abstract values (optional-field subsets, repetition 0..3) with the expected view computed from the abstract value, compared field by field with the real constructors; full wrong-DG pairing matrix",
+   text="Every generated well-formed file of the 13 LDS file types (all 2^13 DG11 subsets in thorough, COM tag subsets, DG2 with 1..3 templates in both biometric encodings, ...) is parsed by the real constructor and its view compared with the expectation computed from the abstract value (no second parser); parse twice = equal views; buffer aliasing; every file x every other constructor/DG number rejected; identity-summary precedence on an 8064-document product.",
+   note="generators only emit forms whose rendering ICAO 9303-10 fixes; Age/PossibleAges (clock) excluded; ISO/IEC 19794-5 feature-point layout from recollection of the standard (see known finding)"),
 }
 PENDING_REASON = "check not built yet in this session (planned in DESIGN.md §4); no claim is made until its machinery exists and is green on the unchanged tree"
 
